@@ -405,19 +405,29 @@ class MCNP_Problem:
         .. warning::
             this does not move complement cells, and probably other objects.
         """
-        surfaces = set(self.surfaces)
-        materials = set(self.materials)
-        transforms = set(self.transforms)
+
+        def unique(objects):
+            # by identity: two different objects with one number must not be merged silently
+            # (the cell would keep pointing at an object that is not in the problem);
+            # building the collections below raises NumberConflictError for them
+            seen = {}
+            for obj in objects:
+                seen.setdefault(id(obj), obj)
+            return list(seen.values())
+
+        surfaces = list(self.surfaces)
+        materials = list(self.materials)
+        transforms = list(self.transforms)
         for cell in self.cells:
-            surfaces.update(set(cell.surfaces))
+            surfaces.extend(cell.surfaces)
             for surf in cell.surfaces:
                 if surf.transform:
-                    transforms.add(surf.transform)
+                    transforms.append(surf.transform)
             if cell.material:
-                materials.add(cell.material)
-        surfaces = sorted(surfaces)
-        materials = sorted(materials)
-        transforms = sorted(transforms)
+                materials.append(cell.material)
+        surfaces = sorted(unique(surfaces))
+        materials = sorted(unique(materials))
+        transforms = sorted(unique(transforms))
         # build every collection before replacing any, so that a numbering conflict changes nothing
         new_surfaces = Surfaces(surfaces, problem=self)
         new_materials = Materials(materials, problem=self)
@@ -427,7 +437,7 @@ class MCNP_Problem:
         self._transforms = new_transforms
         for obj in itertools.chain(surfaces, materials, transforms):
             obj.link_to_problem(self)
-        self._data_inputs = sorted(set(self._data_inputs + materials + transforms))
+        self._data_inputs = sorted(unique(self._data_inputs + materials + transforms))
 
     def write_to_file(self, new_problem, overwrite=False):
         """
